@@ -121,7 +121,81 @@ def unit_classic(name):
             S.prove(f"{name}/consecution(clip-maps-into-space)", ctx, in_box(obs_c, low, high), hyps=hyp + fin, function=f"{fnp}.clip", replay=_native_replay(name), nl_budget_ms=6000,
                     what="for EVERY real vector y the solver may return, observation(clip(y)) is inside the declared space: the space bounds and the clip bounds are the same constructor symbols")
         S.fact(f"{name}/reward-is-float-scalar", rew.shape == () and rew.kind == "f", function=f"{fnp}.reward", what="the reward is a float scalar")
+        if name == "CartPole":
+            return
+        # the transition itself, for every solver configuration the constructor accepts: whatever the ODE solve returns (uninterpreted: arbitrary reals), the successor state's
+        # observation is inside the declared space - i.e. every path through `transition` ends in `clip`
+        import types
+        import diffrax
+
+        def solve_stub(term, solver=None, t0=None, t1=None, dt0=None, y0=None, args=None, saveat=None, stepsize_controller=None, **kw):
+            return types.SimpleNamespace(ys=ocall("SOLVE#", sd((1,) + tuple(y0.shape), f32), y0, t0, t1, *jax.tree.leaves(args)))
+        S.under_contract("lerax.env.classic_control.base_classic_control:AbstractClassicControlEnv.transition")
+        asp = cls().action_space
+        for sname, skw in (("default-solver", {}), ("Euler", dict(solver=diffrax.Euler())), ("Heun+PID", dict(solver=diffrax.Heun(), stepsize_controller=diffrax.PIDController(rtol=1e-3, atol=1e-4)))):
+            ctx2 = Ctx()
+            ps2 = {p: kit.real_scalar(p) for p in pnames}
+            hyp2 = pre({p: ps2[p][1] for p in pnames})
+            y2 = sym(ctx2, "y", sd((n,), f32))
+            t2 = sym(ctx2, "t", sd((), f32))
+            a2 = sym(ctx2, "a", sd((), jnp.int32) if isinstance(asp, Discrete) else sd(tuple(asp.shape), f32))
+            k2, _ = kit.key_input("key")
+
+            def prog2(yy, tt, aa, kk, *pv, skw=skw):
+                env = cls(**dict(zip(pnames, pv)), **skw)
+                ns = env.transition(State(y=yy, t=tt), aa, key=kk)
+                sp = env.observation_space
+                return sp.low, sp.high, env.observation(ns, key=kk)
+            try:
+                with extract.patched((diffrax, "diffeqsolve", solve_stub)):
+                    lo2, hi2, ob2 = run(ctx2, prog2, y2, t2, a2, k2, *[ps2[p][0] for p in pnames])
+            except TypeError as e:
+                S.undecided(f"{name}[{sname}]/transition-ends-in-clip", f"constructor does not accept this solver configuration: {e}"[:200], function=f"{fnp}.transition")
+                continue
+            act_ok = [z3.And(a2.scalar() >= 0, a2.scalar() < int(asp.n))] if isinstance(asp, Discrete) else [z3.And(a2.at(i) > -ir.INF, a2.at(i) < ir.INF) for i in a2.indices()]
+            fin2 = [z3.And(y2.at((i,)) > -ir.INF, y2.at((i,)) < ir.INF) for i in range(n)] + [z3.And(t2.scalar() > -ir.INF, t2.scalar() < ir.INF)]
+            S.prove(f"{name}[{sname}]/transition-ends-in-clip", ctx2, in_box(ob2, lo2, hi2), hyps=hyp2 + fin2 + act_ok + _finite_calls(ctx2, "SOLVE#"),
+                    function="lerax.env.classic_control.base_classic_control:AbstractClassicControlEnv.transition", replay=_solver_rollout_replay(name), nl_budget_ms=6000,
+                    what=f"solver configuration {sname}: for every state, action and every vector the ODE solve may return, the successor observation is inside the declared space "
+                         "(every path through transition ends in clip)")
     return unit
+
+
+def _finite_calls(ctx, cname):
+    """the uninterpreted solver returns finite reals (A-REAL; NaN-freeness of the solve is not claimed, see not_decided)"""
+    out = []
+    for call in ctx.calls:
+        if call.name == cname:
+            for o in call.outputs:
+                out += [z3.And(o.at(i) > -ir.INF, o.at(i) < ir.INF) for i in o.indices()]
+    return out
+
+
+def _solver_rollout_replay(name):
+    """R1: native rollouts of the real environment built with each solver configuration (default, fixed-step Euler, adaptive Heun), constant bound-corner actions for up to 300 steps
+    (the longest run-up to a bound), membership by the real contains()."""
+    def replay(model):
+        import diffrax
+        cls = CLASSIC[name][0]
+        for sname, skw in (("default-solver", {}), ("Euler", dict(solver=diffrax.Euler())), ("Heun+PID", dict(solver=diffrax.Heun(), stepsize_controller=diffrax.PIDController(rtol=1e-3, atol=1e-4)))):
+            try:
+                env = cls(**skw)
+            except TypeError:
+                continue
+            sp = env.action_space
+            acts = [jnp.asarray(0), jnp.asarray(int(sp.n) - 1)] if isinstance(sp, Discrete) else [sp.low * jnp.ones(sp.shape), sp.high * jnp.ones(sp.shape)]
+            step = jax.jit(lambda s, a, k: env.step(s, a, key=k))
+            for ai, a in enumerate(acts):
+                key = jax.random.key(ai)
+                s, o, _ = env.reset(key=key)
+                for t in range(300):
+                    if not bool(env.observation_space.contains(o)):
+                        return dict(reproduced=True, route=f"R1 (real {name}({sname}), constant corner action)", inputs=dict(env=name, solver=sname, action=np.asarray(a).tolist(), step=t),
+                                    observed=dict(observation=np.asarray(o).tolist(), low=np.asarray(env.observation_space.low).tolist(), high=np.asarray(env.observation_space.high).tolist()))
+                    key, k2 = jax.random.split(key)
+                    s, o, r, te, tr, _ = step(s, a, k2)
+        return dict(reproduced=False, note="constant corner-action rollouts (300 steps, 3 solver configurations) stayed inside the space")
+    return replay
 
 
 def _native_replay(name):
